@@ -244,7 +244,7 @@ func vhMakeState(n int, maxVal uint64) *vhState {
 	for i := 0; i < n; i++ {
 		k := vsBytesN("key", 32)
 		vsAssume(bytes.Compare(prev, k) < 0)
-		ln := vsU64("vlen")
+		ln := uint64(vsU32("vlen") & 0x1fffff) // value lengths are below 2^21 (assumed below)
 		vsAssume(ln <= maxVal)
 		s.kv.live = append(s.kv.live, vmEntry{key: k, val: vsBytesN("val", int(ln))})
 		s.keys = append(s.keys, k)
